@@ -56,6 +56,9 @@ func main() {
 	r.Assume("'refuses leaders' = some entry of the configured reject-leader property list (0-4 entries set one by one through PersistOptions.SetLabelProperty, often several values of one key, duplicates, different keys) equals one of the store's labels - computed by the harness from the world description, not through pd's CheckLabelProperty -, leader transfer paused, evict-leader configured, or paused by a grant-leader scheduler (a transfer by the grant-leader scheduler to its own store is the documented exception); a leader transfer to an offline/down store is only counted")
 	r.Assume("a step that the simulated store refuses (other than a second peer on a store) is reported as operator-step-refused: the operator cannot complete, so it cannot preserve anything; origins in a joint state or without leader are not generated")
 	r.Assume("batch-retry family: a double of the cluster (embedding the mockcluster) reports one region of a ScatterRegions / ByID / ByRange batch (retryLimit 1-3) hot or not fully replicated exactly once and at that moment sets the store preferred by the seeded selection history offline / tombstone / down / disconnected (no heartbeat for 5 minutes); operators are judged against the store states at the time the batch returns; the other regions of the batch already hold a peer on that store, so no first-attempt operator can legitimately add one there")
+	r.Assume("dynamic worlds (60%): between two calls of the long-lived scatterer / schedulers a store leaves or re-enters service or is paused, store labels change, reject-leader properties are set / deleted, placement rules are switched on / off, max-replicas changes, stores are added to / removed from the evict-leader scheduler through its HTTP handler; operators are judged against the description at the time of the call. The same store / label / property changes and region changes (leader moved, follower moved) are also injected in the MIDDLE of a call at a cluster query of the harness' own cluster double: then only what is wrong under both the description before and after is held against the operator, and an operator for a region that changed mid-call is accepted if it is right for either version")
+	r.Assume("faults: in 15% of the worlds the id allocator fails for 10% of the requests while operators are built; scale: a few worlds of 100-300 stores, dozens of scatter groups, regions of 5-9 peers that start on a dozen stores; concurrency: worlds where 3 scatter clients share one scatterer, 4 goroutines own the schedulers (one goroutine per scheduler, one OperatorController) and heartbeats re-report unchanged placements - the world is static there, so every operator is judged against one description; data races are left to the race detector (listed, not judged). The scatterer gets one sequential warm-up call per region shape first (its lazy per-engine context map is not synchronised)")
+	r.Assume("an operator that hands the leader back to the store that led the region when the operator was built is not held against 'leaders only to stores that accept leaders' (counted as skipped_ambiguous)")
 	r.Assume("the scatterer forgets a group after 3 minutes without use (TTL cache); a world lives for about a second, the loss classifier assumes nothing was forgotten")
 
 	var mu sync.Mutex
